@@ -5,8 +5,10 @@ import OjgVerif.Gen.Reflect
 Go types are data; `Reflect/Registry.lean` models `alt/recomposer.go` (`registerComposer`,
 `indexType`, `recomp`, `setValue`, `recompAny`) with the registry keyed as the code keys it: bare
 type name AND `pkgpath/name`. The flag `bareName` of the model is `false` for the code as it is NOW
-(/repo 6d5fecb: a composer found under a name is used only for the type it was made for;
-`current_lookup_in_source` ties that to the source) and `true` for the code BEFORE that commit.
+(/repo a720b7c: a composer found under a name is used only for the type it was made for — 6d5fecb —
+and the field walk of `registerComposer` unwraps containers completely — a720b7c;
+`current_lookup_in_source` ties that to the source) and `true` for the code BEFORE 6d5fecb (lookup by
+bare name, one level of unwrapping; the trees between the two commits are not modelled).
 Proved here, for every datum, fuel and create key:
 
 * `history_independent_current` (`C16_history_partial`), `recompose_current_eq_pure`: for the code as it
@@ -197,9 +199,11 @@ theorem C16_history_full_false : ¬ C16_history_full := by
   rw [this] at hw
   exact absurd hw.1 (by decide)
 
-/-- the source has the guards the model's `bareName = false` stands for (regenerated by
-`tools/extract/reflect.go`; on the source before 6d5fecb this fails) -/
+/-- the source has the guards and the complete unwrapping of containers in the field walk that the
+model's `bareName = false` stands for (regenerated by `tools/extract/reflect.go`; on the source before
+6d5fecb or before a720b7c this fails) -/
 theorem current_lookup_in_source :
+    Gen.Reflect.altRegisterWalkUnwrapsAll = true ∧
     Gen.Reflect.altRegisterNewCond = "c == nil || c.rtype != rt" ∧
     Gen.Reflect.altRecompLookups =
       ["c := r.composers[rv.Type().Name()]; c != nil && c.rtype == rv.Type() && c.any != nil",
